@@ -215,6 +215,10 @@ class Ctx:
     def abs(self, x):
         return abs(x)
 
+    @property
+    def pi(self):
+        return Sym(S.PI) if self.symbolic else math.pi
+
     def const(self, x):
         """exact constant (e.g. pi) usable in both modes"""
         if self.symbolic:
@@ -274,10 +278,12 @@ class Ctx:
         if cond is not True:
             self.require(cond)
 
-    def ensure(self, cid, cond, note=None, using=()):
+    def ensure(self, cid, cond, note=None, using=(), sym_only=False):
         """using: facts (conditions) that are proved first on this path and are then the only
         hypotheses -- besides path facts over the same symbols -- given to the SMT solver"""
         if self.mode == 'num':
+            if sym_only:
+                return
             ok = bool(cond)
             self.goals.append((cid, 'num', ok, note))
             return
@@ -308,8 +314,10 @@ class Ctx:
                 self.path.narrow(key, poly, poss)
         return Sym(s)
 
-    def ensure_eq(self, cid, a, b, tol=None, note=None):
+    def ensure_eq(self, cid, a, b, tol=None, note=None, sym_only=False):
         a, b = self.val(a), self.val(b)
+        if self.mode == 'num' and sym_only:
+            return
         if self.mode == 'num':
             tol = tol or self.tol
             fa, fb = complex(a), complex(b)
@@ -579,6 +587,16 @@ def discharge(path, kind, payload, timeout_ms):
             goal = False
         else:
             diff = a.e - b.e
+            if diff.is_number and not diff.free_symbols:
+                # closed evaluation: no free variables (floats in the code are exact rationals here)
+                try:
+                    dv = complex(diff.evalf(30))
+                    sc = 1 + abs(complex(a.e.evalf(30))) + abs(complex(b.e.evalf(30)))
+                    if abs(dv) <= 1e-12 * sc:
+                        return 'proved', 'closed-evaluation', '|diff|=%.2e' % abs(dv), time.time() - t0
+                    return 'refuted', 'closed-evaluation', 'difference %s' % dv, time.time() - t0
+                except Exception:
+                    pass
             if diff.has(sp.I):
                 re_, im_ = sp.expand(diff, complex=True).as_real_imag()
                 parts = [re_, im_]
@@ -761,6 +779,8 @@ def num_eval(e, env):
     if e.is_number:
         return complex(e) if e.has(sp.I) else float(e)
     syms = e.free_symbols
+    if S.PI in syms and S.PI not in env:
+        env[S.PI] = math.pi
     missing = [s for s in syms if s not in env]
     if missing:
         raise KeyError('no concrete value for %s' % missing)
